@@ -409,14 +409,25 @@ func runE2E(log *tr.Log, sc *e2eScen, rng *rand.Rand, tmpdir string, big bool) e
 			flags = varlink.More
 		}
 		log.Ev("CS", tr.M{"i": i, "tok": 100 * i})
-		recv, err := conn.Send(ctx, "e2e.t.Echo", params, flags)
-		if err != nil {
-			log.Ev("CSFAIL", tr.M{"i": i, "err": err.Error()})
-			break
+		// single-reply calls go through Connection.Call half of the time, the others through Send + receive
+		useCall := total == 1 && rng.Intn(2) == 0
+		var recv func(context.Context, interface{}) (uint64, error)
+		if !useCall {
+			recv, err = conn.Send(ctx, "e2e.t.Echo", params, flags)
+			if err != nil {
+				log.Ev("CSFAIL", tr.M{"i": i, "err": err.Error()})
+				break
+			}
 		}
 		for j := 1; j <= total; j++ {
 			var out json.RawMessage
-			fl, err := recv(ctx, &out)
+			var fl uint64
+			var err error
+			if useCall {
+				err = conn.Call(ctx, "e2e.t.Echo", params, &out)
+			} else {
+				fl, err = recv(ctx, &out)
+			}
 			ev := tr.M{"i": i, "j": j, "continues": fl&varlink.Continues != 0, "kind": "reply", "tok": -3, "name_ok": true}
 			if err == nil {
 				ev["tok"] = toks.find(out)
